@@ -297,7 +297,13 @@ class Impl:
         elif op == 'add_component':
             n = self.node(s['node'])
             info['parent'] = n.node_id
-            info['cat_exc'], info['cat'], info['pure'] = self.pure_component(s, n.name)
+            # the constructor takes the parent's name from the GRAPH (get_node_properties), not from the handle:
+            # they differ when the node was renamed after the handle was made
+            try:
+                pname = n.topo.graph_model.get_node_properties(node_id=n.node_id)[1].get('Name', None)
+            except Exception:
+                pname = n.name          # a stale handle: the call fails before the catalogue is consulted
+            info['cat_exc'], info['cat'], info['pure'] = self.pure_component(s, pname)
         elif op in ('add_service', 'add_link'):
             hs = [self.iface(r) for r in s['ifs']] if s.get('ifs') is not None else None
             info['ifs'] = [[h.node_id, h.name] for h in hs] if hs is not None else None
